@@ -35,8 +35,11 @@ pub fn read_input_file_and_xsd_files_at_path(current_file: &Path) -> WriterResul
                 .ok_or(WriterError::PathNotFound)?
                 .to_str()
                 .ok_or(WriterError::PathNotFound)?;
-            let xml = std::fs::read_to_string(&path)?;
-            files.add(file_name, xml);
+            // a sibling that can not be read as text (e.g. not UTF-8) only matters when something imports it, and then
+            // the import reports it as not found; an unrelated file must not make the run fail
+            if let Ok(xml) = std::fs::read_to_string(&path) {
+                files.add(file_name, xml);
+            }
         }
     }
 
